@@ -316,6 +316,46 @@ pub fn run(out: &Path, seed: u64, thorough: bool) -> Result<(), Box<dyn std::err
             }
         }
 
+        // ---- a crowded block: transactions the EVM refuses outright (inscription below the intrinsic cost)
+        //      BEHIND transactions that used gas; every receipt stays within its own allowance and the
+        //      cumulative figure is the running sum (same block on the twin, so the twins stay equal) -------
+        {
+            ts += 600;
+            let h = rnd_hash(&mut rng);
+            let nocode = Address::from_slice(&[0x77; 20]);
+            let lens = [50u64, 0, 1, 50, 1, 2, 0];
+            let txids: Vec<Hx> = lens.iter().map(|_| rnd_hash(&mut rng)).collect();
+            for (which, inst) in [&mut d, &mut twin].into_iter().enumerate() {
+                let mut sum = 0u64;
+                let mut hashes: Vec<(String, u64)> = vec![];
+                for (len, txid) in lens.iter().zip(txids.iter()) {
+                    let (r, _) = inst.call(PKSCRIPTS[1], Some(nocode), Some(&[1, 2, 3]), *len, txid, ts, &h);
+                    if which != 0 { continue; }
+                    match &r {
+                        Ok(rc) if rc.is_object() => {
+                            let (gu, cu) = (envs::hexu(&rc["gasUsed"]), envs::hexu(&rc["cumulativeGasUsed"]));
+                            sum += gu;
+                            if gu > allowance(*len) { fails.push(json!({"what": "C16: gasUsed in the receipt of a transaction behind others in its block exceeds 12000 gas per inscription byte", "case": {"byte_len": len, "gasUsed": gu, "allowance": allowance(*len), "position_in_block": hashes.len(), "inscription_lengths_of_the_block": lens, "receipt": rc}})); }
+                            if cu != sum { fails.push(json!({"what": "C16: cumulativeGasUsed is not the running sum of gasUsed over the block", "case": {"byte_len": len, "cumulativeGasUsed": cu, "running_sum": sum, "receipt": rc}})); }
+                            if let Some(t) = rc["transactionHash"].as_str() { hashes.push((t.to_string(), *len)); }
+                            bump("crowded_block_receipts", &mut counters);
+                        }
+                        other => fails.push(json!({"what": "C16: a call in a crowded block was not answered with a receipt", "case": {"byte_len": len, "answer": format!("{:?}", other).chars().take(200).collect::<String>()}})),
+                    }
+                }
+                let _ = inst.finalise(ts, &h);
+                // (a refused transaction leaves the nonce where it was, so the next one of the same sender gets the
+                //  same hash - known finding F14 of C06/C08: only hashes that occur once are looked up again)
+                let once: Vec<(String, u64)> = hashes.iter().filter(|(t, _)| hashes.iter().filter(|(u, _)| u == t).count() == 1).cloned().collect();
+                for (t, len) in once {
+                    if let (Ok(rc), _) = inst.rpc("eth_getTransactionReceipt", json!([t])) {
+                        let gu = envs::hexu(&rc["gasUsed"]);
+                        if gu > allowance(len) { fails.push(json!({"what": "C16: gasUsed in the stored receipt of a transaction behind others in its block exceeds 12000 gas per inscription byte", "case": {"byte_len": len, "gasUsed": gu, "receipt": rc}})); }
+                    }
+                }
+            }
+        }
+
         // ---- twin comparison: failed transactions == no-ops of their senders ---------------------------
         let sa = state_obs(&mut d, &w, &extra);
         let sb = state_obs(&mut twin, &w, &extra);
